@@ -61,8 +61,10 @@ def _cells(tier):
     # positivity charge
     for kind, fl, proc, (fns, nfff, nf), pto in itertools.product(
         ["F2", "FL", "F3"] if tier == "quick" else kinds, ["total", "light", "charm"], ["EM", "NC"],
-        [("ZM-VFNS", 4, 5), ("FFNS", 3, None), ("FFN0", 4, None), ("FONLL-FFNS", 4, None)], [1, 3] if tier == "quick" else [0, 1, 2, 3]
+        [("ZM-VFNS", 4, 5), ("ZM-VFNS", 4, 6), ("ZM-VFNS", 4, 3), ("FFNS", 3, None), ("FFN0", 4, None), ("FONLL-FFNS", 4, None)], [1, 3] if tier == "quick" else [0, 1, 2, 3]
     ):
+        if tier == "quick" and nf in (3, 6) and (fl != "total" or kind == "FL"):
+            continue
         base = dict(obs=f"{kind}_{fl}", process=proc, fns=fns, nfff=nfff, nf=nf, pto=pto, ren_sv=False, fact_sv=False)
         jobs.append(("pos", base))
     return jobs
@@ -105,6 +107,21 @@ def _run(job):
             parts = [O.fold_op(proj, R.Cell(pos_charge=f"{q}W", **kw), weights="semi") for q in "duscbt"]
             n, bad = O.compare_sum(whole, parts)
             n2, bad2 = O.compare_sum(whole, [alls])
+            # each restricted run couples to its own quark only: every hadronic coupling factor names that quark
+            import re as _re
+
+            for i, (q, part) in enumerate(zip("duscbt", parts)):
+                wrong = set()
+                for key, (vals, _errs) in part.orders.items():
+                    for row in vals:
+                        for e in row:
+                            if isinstance(e, A.Rat):
+                                for a in e.atoms():
+                                    m = _re.match(r"(had|hadfl11)\('\w+', (\d+),", a)
+                                    if m and int(m.group(2)) != i + 1:
+                                        wrong.add(a)
+                if wrong:
+                    bad.append((("restriction", q), 0, 0, f"the run restricted to NCPositivityCharge={q}W carries couplings of another quark: {sorted(wrong)[:2]}"))
             return ("cmp", n + n2, (bad + bad2)[:3], len(bad) + len(bad2), "unrestricted == sum over d,u,s,c,b,t restrictions (and == 'all')")
     except O.FoldFailure as f:
         return ("fold", f.outcome.status, f"{f.outcome.etype} {f.outcome.msg}"[:120], f.outcome.site, f.outcome.construct)
